@@ -1,14 +1,14 @@
 #!/bin/sh
 # usage: tools/reseed.sh [names...]   re-run every kept seeded change (seeded/<name>/patch.diff) against the CURRENT checks and the
 # current /repo HEAD (3-way apply if the tree moved on); prints one line per change: DETECTED / MISSED / NOAPPLY
-cd /verif
+cd "$(dirname "$0")/.." && V=$(pwd)
 NAMES=${*:-$(ls seeded)}
 for m in $NAMES; do
   [ -f seeded/$m/patch.diff ] || continue
   ids=$(/venv/bin/python -c "import json;print(' '.join(json.load(open('seeded/$m/meta.json'))['checks_run']))")
   W=/tmp/reseedwt.$$
   git -C /repo worktree add -q --detach $W HEAD || exit 2
-  if ! git -C $W apply seeded/$m/patch.diff 2>/dev/null && ! git -C $W apply --3way seeded/$m/patch.diff 2>/dev/null; then
+  if ! git -C $W apply $V/seeded/$m/patch.diff 2>/dev/null && ! git -C $W apply --3way $V/seeded/$m/patch.diff 2>/dev/null; then
     echo "$m NOAPPLY"; git -C /repo worktree remove --force $W; continue
   fi
   res=MISSED
